@@ -35,9 +35,17 @@ func (deb *Deb) CheckDebsig(validKeys openpgp.EntityList, sigType string) (signe
 	if control == nil || data == nil {
 		return nil, fmt.Errorf("unable to find signed data")
 	}
-	binaryFlag.Data.Seek(0, 0)
-	control.Data.Seek(0, 0)
-	data.Data.Seek(0, 0)
-	signedData := io.MultiReader(binaryFlag.Data, control.Data, data.Data)
-	return openpgp.CheckDetachedSignature(validKeys, signedData, sig.Data)
+	/* Read the members through readers of our own: the ones on the
+	 * entries are shared with whoever else holds the entry (deb.Data
+	 * decompresses straight out of data.Data), and must be left alone. */
+	signedData := io.MultiReader(
+		io.NewSectionReader(binaryFlag.Data, 0, binaryFlag.Data.Size()),
+		io.NewSectionReader(control.Data, 0, control.Data.Size()),
+		io.NewSectionReader(data.Data, 0, data.Data.Size()),
+	)
+	return openpgp.CheckDetachedSignature(
+		validKeys,
+		signedData,
+		io.NewSectionReader(sig.Data, 0, sig.Data.Size()),
+	)
 }
